@@ -75,6 +75,8 @@ func c20NewFixture() *c20Fixture {
 	}
 	f.produced = append(f.produced, must(f.u.Reshape([]int{4})), must(f.u.Slice([]tensor.Range{{From: 0, To: 1}})), must(f.u.MatMul(f.x)), must(f.u.Transpose()),
 		must(tensor.Concat([]tensor.Tensor{f.u, f.x}, 1)), must(f.u.UnSqueeze(0)), must(f.u.Broadcast([]int{2, 2, 2})), f.u.Scale(2))
+	// comparison results, shared BEFORE anything used them (whatever they set up lazily on first use is set up by several goroutines at once)
+	f.produced = append(f.produced, must(f.u.Gt(f.x)), must(f.u.Eq(f.u)), must(f.x.Le(f.u)))
 	return f
 }
 
